@@ -4,7 +4,7 @@ CFG = dict(
     coq="Properties/C07.v",
     areas=["purity", "delta", "lzmaenc", "lzmadec"],
     level="proof",
-    theorems_expected=["C07_lzma1_no_byte_lost", "C07_lzma2_no_byte_lost", "C07_uncompressed_fallback_old_refuted", "C07_uncompressed_fallback_max_refuted", "C07_fill_window_huge_slice_old_refuted", "C07_lzma_expected_size", "C07_delta_write_partition", "C07_delta_read_partition"],
+    theorems_expected=["C07_lzma1_no_byte_lost", "C07_lzma2_no_byte_lost", "C07_uncompressed_fallback_old_refuted", "C07_uncompressed_fallback_max_refuted", "C07_fill_window_huge_slice_old_refuted", "C07_process_pending_strict_assert_refuted", "C07_lzma_expected_size", "C07_delta_write_partition", "C07_delta_read_partition"],
     rule="purity: cases = (option vector, writer kind LZMAWriter header/marker/declared-size variants | LZIPWriter | LZMA2Writer with/without "
          "chunk_size | XZWriter, optional preset dictionary, data from 10 compressibility classes plus multi-100-KiB cases that fill and move the "
          "encoder window, TWO call histories over the same data: write partitions from 6 classes with empty writes and flushes); the real writer "
